@@ -211,3 +211,45 @@ func c01NilResults(c *core.Check) {
 		r.Anchor("dereferences of results of nil-returning functions")
 	}
 }
+
+// c01ErrorNotPanic: a function that has an error result reports what it cannot handle through it.  In the packages
+// that turn document text into values (css/parser, css/validation, html/tree) no function with an error result
+// contains an explicit panic: the callers handle the error (warning, declaration ignored), nobody recovers a panic.
+func c01ErrorNotPanic(c *core.Check) {
+	p := c.Prog
+	r := c.Rule("R19", "bad input is reported, not thrown: in css/parser, css/validation and html/tree no function that has an error result contains an explicit panic (its callers log the error and ignore the declaration; a panic ends the rendering)", 78)
+	errT := types.Universe.Lookup("error").Type()
+	n := 0
+	for _, pkg := range []string{"css/parser", "css/validation", "html/tree"} {
+		for _, fn := range p.FuncsOfPkg(pkg) {
+			if fn.Blocks == nil {
+				continue
+			}
+			hasErr := false
+			res := fn.Signature.Results()
+			for i := 0; i < res.Len(); i++ {
+				if types.Identical(res.At(i).Type(), errT) {
+					hasErr = true
+				}
+			}
+			if !hasErr {
+				continue
+			}
+			n++
+			var at token.Pos
+			core.Instrs(fn, func(in ssa.Instruction) {
+				if pn, ok := in.(*ssa.Panic); ok {
+					at = pn.Pos()
+				}
+			})
+			pos := p.Pos(fn.Pos())
+			if at != token.NoPos {
+				pos = p.Pos(at)
+			}
+			r.Cond(at == token.NoPos, core.FuncName(fn)+" | no panic beside the error result", pos, "no explicit panic", "the function can return an error but panics instead: `a::before { content: attr(href url) }` ended the rendering with \"invalid attr() property\" where a warning and an ignored declaration were due")
+		}
+	}
+	if n == 0 {
+		r.Anchor("functions with an error result in css/parser, css/validation, html/tree")
+	}
+}
